@@ -10,7 +10,7 @@ import ast
 import itertools
 from fractions import Fraction as Fr
 
-from ..fold import Num, fold_num, fold_value, duplicate_keys
+from ..fold import Num, fold_num, fold_value, duplicate_keys, fold_table
 from ..nf import Rat, C
 from ..source import AnchorError, Unsupported, norm
 from ..xlate import Interp, Raised, DictV, ListV, RankOrder
@@ -130,8 +130,8 @@ def check(run, repo):
     if Na is None:
         raise AnchorError('Na not found')
     ud = {}
-    for k, v in zip(unit_node.keys, unit_node.values):
-        ud[fold_value(um, k)] = fold_num(um, v, {'Na': Na})
+    for k_, num_, _v in fold_table(um, unit_node, {'Na': Na}):
+        ud[k_] = num_
     run.floor('unit_dict keys', len(ud), 60)
     run.floor('type_dict keys', len(type_dict), 60)
 
@@ -360,7 +360,7 @@ def check(run, repo):
         dups = duplicate_keys(tm, node)
         run.check(not dups, 'TABLE.dupkey', 'constants.%s' % fname, 'dup:%s' % dups,
                   'duplicate key(s) %s in the table of %s' % (dups, fname), tm, node)
-        return tn, [fold_value(tm, k) for k in node.keys], node
+        return tn, [k_ for k_, _num, _v in fold_table(tm, node, {'Na': Na})], node
 
     Rn, Rkeys, Rnode = table_keys('R')
     kn, kbkeys, kbnode = table_keys('kb')
